@@ -88,126 +88,138 @@ where
     | [] => []
     | v :: vs => encode v ++ encodeList vs
 
-/-! ### generic parser -/
+/-! ### generic parser
 
-def takeN (n : Nat) (b : Bytes) : Option (Bytes × Bytes) :=
-  if b.length < n then none else some (b.take n, b.drop n)
+  The parser distinguishes *why* an object cannot be read, because go-codec's
+  stream decoder does: input that ends inside an object is reported as
+  `io.EOF`, an impossible descriptor byte (`0xc1`) as a decode error. -/
 
-def readLen (n : Nat) (b : Bytes) : Option (Nat × Bytes) :=
+inductive PErr where
+  | trunc       -- input ends inside (or before) the object
+  | invalid     -- unrecognised descriptor byte
+  deriving Repr, DecidableEq
+
+abbrev PRes (α : Type) := Except PErr (α × Bytes)
+
+def takeN (n : Nat) (b : Bytes) : PRes Bytes :=
+  if b.length < n then .error .trunc else .ok (b.take n, b.drop n)
+
+def readLen (n : Nat) (b : Bytes) : PRes Nat :=
   match takeN n b with
-  | none => none
-  | some (h, t) => some (natOfBytes h, t)
+  | .error e => .error e
+  | .ok (h, t) => .ok (natOfBytes h, t)
 
 def signedOf (bits : Nat) (v : Nat) : Int :=
   if v < 2 ^ (bits - 1) then (v : Int) else (v : Int) - (2 ^ bits : Nat)
 
+def lenBin (w : Nat) (mk : Bytes → Val) (rest : Bytes) : PRes Val :=
+  match readLen w rest with
+  | .error e => .error e
+  | .ok (n, r) => match takeN n r with
+    | .ok (s, r') => .ok (mk s, r') | .error e => .error e
+
+def lenExt (w : Nat) (rest : Bytes) : PRes Val :=
+  match readLen w rest with
+  | .error e => .error e
+  | .ok (n, r) => match takeN (n + 1) r with
+    | .ok (s, r') => .ok (.ext (signedOf 8 (s.headD 0).toNat) s.tail, r') | .error e => .error e
+
 mutual
-/-- parse one object; `fuel` bounds nesting+size (input length + 1 suffices). -/
-def parse : (fuel : Nat) → Bytes → Option (Val × Bytes)
-  | 0, _ => none
-  | _, [] => none
+/-- parse one object; `fuel` bounds nesting+size (`4·length + 8` suffices). -/
+def parse : (fuel : Nat) → Bytes → PRes Val
+  | 0, _ => .error .trunc
+  | _, [] => .error .trunc
   | fuel + 1, t :: rest =>
     let c := t.toNat
-    if c < 0x80 then some (.int c, rest)
+    if c < 0x80 then .ok (.int c, rest)
     else if c < 0x90 then
       match parseMap fuel (c - 0x80) rest with
-      | some (l, r) => some (.map l, r) | none => none
+      | .ok (l, r) => .ok (.map l, r) | .error e => .error e
     else if c < 0xa0 then
       match parseArr fuel (c - 0x90) rest with
-      | some (l, r) => some (.arr l, r) | none => none
+      | .ok (l, r) => .ok (.arr l, r) | .error e => .error e
     else if c < 0xc0 then
       match takeN (c - 0xa0) rest with
-      | some (s, r) => some (.str s, r) | none => none
-    else if c = 0xc0 then some (.nil, rest)
-    else if c = 0xc1 then none
-    else if c = 0xc2 then some (.bool false, rest)
-    else if c = 0xc3 then some (.bool true, rest)
-    else if c = 0xc4 ∨ c = 0xc5 ∨ c = 0xc6 then
-      let w := if c = 0xc4 then 1 else if c = 0xc5 then 2 else 4
-      match readLen w rest with
-      | none => none
-      | some (n, r) => match takeN n r with
-        | some (s, r') => some (.bin s, r') | none => none
-    else if c = 0xc7 ∨ c = 0xc8 ∨ c = 0xc9 then
-      let w := if c = 0xc7 then 1 else if c = 0xc8 then 2 else 4
-      match readLen w rest with
-      | none => none
-      | some (n, r) => match takeN (n + 1) r with
-        | some (s, r') => some (.ext (signedOf 8 (s.headD 0).toNat) s.tail, r') | none => none
+      | .ok (s, r) => .ok (.str s, r) | .error e => .error e
+    else if c = 0xc0 then .ok (.nil, rest)
+    else if c = 0xc1 then .error .invalid
+    else if c = 0xc2 then .ok (.bool false, rest)
+    else if c = 0xc3 then .ok (.bool true, rest)
+    else if c = 0xc4 then lenBin 1 .bin rest
+    else if c = 0xc5 then lenBin 2 .bin rest
+    else if c = 0xc6 then lenBin 4 .bin rest
+    else if c = 0xc7 then lenExt 1 rest
+    else if c = 0xc8 then lenExt 2 rest
+    else if c = 0xc9 then lenExt 4 rest
     else if c = 0xca then
-      match takeN 4 rest with | some (s, r) => some (.float s, r) | none => none
+      match takeN 4 rest with | .ok (s, r) => .ok (.float s, r) | .error e => .error e
     else if c = 0xcb then
-      match takeN 8 rest with | some (s, r) => some (.float s, r) | none => none
+      match takeN 8 rest with | .ok (s, r) => .ok (.float s, r) | .error e => .error e
     else if c = 0xcc ∨ c = 0xcd ∨ c = 0xce ∨ c = 0xcf then
       let w := if c = 0xcc then 1 else if c = 0xcd then 2 else if c = 0xce then 4 else 8
       match readLen w rest with
-      | some (n, r) => some (.int n, r) | none => none
+      | .ok (n, r) => .ok (.int n, r) | .error e => .error e
     else if c = 0xd0 ∨ c = 0xd1 ∨ c = 0xd2 ∨ c = 0xd3 then
       let w := if c = 0xd0 then 1 else if c = 0xd1 then 2 else if c = 0xd2 then 4 else 8
       match readLen w rest with
-      | some (n, r) => some (.int (signedOf (8 * w) n), r) | none => none
+      | .ok (n, r) => .ok (.int (signedOf (8 * w) n), r) | .error e => .error e
     else if c = 0xd4 ∨ c = 0xd5 ∨ c = 0xd6 ∨ c = 0xd7 ∨ c = 0xd8 then
       let n := if c = 0xd4 then 1 else if c = 0xd5 then 2 else if c = 0xd6 then 4 else if c = 0xd7 then 8 else 16
       match takeN (n + 1) rest with
-      | some (s, r') => some (.ext (signedOf 8 (s.headD 0).toNat) s.tail, r') | none => none
-    else if c = 0xd9 ∨ c = 0xda ∨ c = 0xdb then
-      let w := if c = 0xd9 then 1 else if c = 0xda then 2 else 4
-      match readLen w rest with
-      | none => none
-      | some (n, r) => match takeN n r with
-        | some (s, r') => some (.str s, r') | none => none
+      | .ok (s, r') => .ok (.ext (signedOf 8 (s.headD 0).toNat) s.tail, r') | .error e => .error e
+    else if c = 0xd9 then lenBin 1 .str rest
+    else if c = 0xda then lenBin 2 .str rest
+    else if c = 0xdb then lenBin 4 .str rest
     else if c = 0xdc ∨ c = 0xdd then
       let w := if c = 0xdc then 2 else 4
       match readLen w rest with
-      | none => none
-      | some (n, r) => match parseArr fuel n r with
-        | some (l, r') => some (.arr l, r') | none => none
+      | .error e => .error e
+      | .ok (n, r) => match parseArr fuel n r with
+        | .ok (l, r') => .ok (.arr l, r') | .error e => .error e
     else if c = 0xde ∨ c = 0xdf then
       let w := if c = 0xde then 2 else 4
       match readLen w rest with
-      | none => none
-      | some (n, r) => match parseMap fuel n r with
-        | some (l, r') => some (.map l, r') | none => none
-    else some (.int ((c : Int) - 256), rest)      -- negative fixint e0..ff
+      | .error e => .error e
+      | .ok (n, r) => match parseMap fuel n r with
+        | .ok (l, r') => .ok (.map l, r') | .error e => .error e
+    else .ok (.int ((c : Int) - 256), rest)      -- negative fixint e0..ff
 
-def parseArr : (fuel : Nat) → (n : Nat) → Bytes → Option (List Val × Bytes)
-  | 0, _, _ => none
-  | _ + 1, 0, b => some ([], b)
+def parseArr : (fuel : Nat) → (n : Nat) → Bytes → PRes (List Val)
+  | 0, _, _ => .error .trunc
+  | _ + 1, 0, b => .ok ([], b)
   | fuel + 1, n + 1, b =>
-    if b.length < n + 1 then none        -- each element needs at least one byte
-    else match parse fuel b with
-    | none => none
-    | some (v, r) => match parseArr fuel n r with
-      | none => none
-      | some (vs, r') => some (v :: vs, r')
+    match parse fuel b with
+    | .error e => .error e
+    | .ok (v, r) => match parseArr fuel n r with
+      | .error e => .error e
+      | .ok (vs, r') => .ok (v :: vs, r')
 
-def parseMap : (fuel : Nat) → (n : Nat) → Bytes → Option (List (Val × Val) × Bytes)
-  | 0, _, _ => none
-  | _ + 1, 0, b => some ([], b)
+def parseMap : (fuel : Nat) → (n : Nat) → Bytes → PRes (List (Val × Val))
+  | 0, _, _ => .error .trunc
+  | _ + 1, 0, b => .ok ([], b)
   | fuel + 1, n + 1, b =>
-    if b.length < 2 * (n + 1) then none
-    else match parse fuel b with
-    | none => none
-    | some (k, r) => match parse fuel r with
-      | none => none
-      | some (v, r') => match parseMap fuel n r' with
-        | none => none
-        | some (kvs, r'') => some ((k, v) :: kvs, r'')
+    match parse fuel b with
+    | .error e => .error e
+    | .ok (k, r) => match parse fuel r with
+      | .error e => .error e
+      | .ok (v, r') => match parseMap fuel n r' with
+        | .error e => .error e
+        | .ok (kvs, r'') => .ok ((k, v) :: kvs, r'')
 end
 
 /-- parse one object from the front of `b` -/
-def parse1 (b : Bytes) : Option (Val × Bytes) := parse (2 * b.length + 2) b
+def parse1 (b : Bytes) : PRes Val := parse (4 * b.length + 8) b
 
-/-- split a byte stream into its top-level objects; `rest` is what could not be
-    parsed (empty = clean end). Fuel: every object consumes at least one byte. -/
-def parseAll : (fuel : Nat) → Bytes → List Val × Bytes
-  | 0, b => ([], b)
+/-- split a byte stream into its top-level objects, and say why it stops:
+    `none` = clean end of input, `some e` = the next object cannot be read. -/
+def parseAll : (fuel : Nat) → Bytes → List Val × Option PErr
+  | 0, _ => ([], some .trunc)
   | fuel + 1, b =>
-    if b.isEmpty then ([], [])
+    if b.isEmpty then ([], none)
     else match parse1 b with
-      | none => ([], b)
-      | some (v, r) =>
-        let (vs, rest) := parseAll fuel r
-        (v :: vs, rest)
+      | .error e => ([], some e)
+      | .ok (v, r) =>
+        let (vs, stop) := parseAll fuel r
+        (v :: vs, stop)
 
 end Saltpack.Msgpack
